@@ -261,10 +261,20 @@ def input_values(seed: int, n: int, offset: int):
 
 # ---------------------------------------------------------------------------------------------- emitters
 def lean_sq(t):
+    """(n/d)·√r in lowest terms as the normal form of `Exact.SqrtQ` (`Q` = numerator over `dm1 + 1`)"""
     n, d, r = t
     if n == 0:
         return "[]"
-    return f"[({r}, Q.mk' ({n}) {d})]"
+    g = math.gcd(abs(n), d)
+    return f"[({r}, ⟨{n // g}, {d // g - 1}⟩)]"
+
+
+def nested(vals, shape):
+    """row-major flat list -> nested Lean list literal"""
+    if not shape:
+        return vals[0]
+    step = len(vals) // shape[0]
+    return "[" + ", ".join(nested(vals[i * step:(i + 1) * step], shape[1:]) for i in range(shape[0])) + "]"
 
 
 def emit_data(cfg: Config, rtp, lifted, prog_txt):
@@ -273,9 +283,10 @@ def emit_data(cfg: Config, rtp, lifted, prog_txt):
     N = 1
     for irs in rtp.irreps_in:
         N *= irs.dim
+    shape = [irs.dim for irs in rtp.irreps_in]
     rows = []
     for z in range(D):
-        rows.append("    [" + ", ".join(lean_sq(lifted[z * N + j]) for j in range(N)) + "]")
+        rows.append(f"def row{z} : Tens irIn := " + nested([lean_sq(lifted[z * N + j]) for j in range(N)], shape))
     ir = lambda e: "[" + ", ".join(f"({l}, {'true' if p else 'false'})" for l, p in e) + "]"
     terms_txt = "[" + ", ".join(f"({s}, [{', '.join(map(str, p))}])" for s, p in terms) + "]"
     src = f"""import E3nnVerif.Model.RTPChecks
@@ -287,14 +298,16 @@ open E3nnVerif.Exact E3nnVerif.Model.RTP
 
 def formula : String := "{cfg.formula}"
 
+abbrev irIn : List (List Ir) := [{", ".join(ir(expand(irs)) for irs in rtp.irreps_in)}]
+
+{chr(10).join(rows)}
+
 def cfg : Cfg :=
   {{ terms := {terms_txt},
-    irIn := [{", ".join(ir(expand(irs)) for irs in rtp.irreps_in)}],
+    irIn := irIn,
     irOut := {ir(expand(rtp.irreps_out))},
     complete := {'true' if cfg.complete else 'false'},
-    Q := [
-{(","+chr(10)).join(rows)}
-    ] }}
+    Q := [{", ".join(f"row{z}" for z in range(D))}] }}
 
 /-- the FX graph `main` (batch {B}), translated by fx2ir (sub-modules inlined) -/
 def prog : List E3nnVerif.IR.Node := {prog_txt if prog_txt is not None else "[]"}
@@ -312,7 +325,6 @@ CHECKS_A = [
     ("group_ok", "groupCheck cfg"),
     ("sym_ok", "symCheck cfg"),
     ("parity_ok", "parityCheck cfg"),
-    ("blocks_ok", "blocksCheck cfg"),
 ]
 CHECKS_B = [
     ("ortho_ok", "orthoCheck cfg"),
